@@ -700,26 +700,19 @@ pub(crate) fn any_builder() -> BoardBuilder {
     bb
 }
 
-// @ob id=O7.1 props=C07 also=C06,C08 tier=quick kind=proof weight=medium fn="TryFrom<&BoardBuilder> for Board,Board::set_ep,Board::add_castle_rights,BoardBuilder::get_en_passant" desc="for a FULLY symbolic builder (any of 13 contents on each of the 64 squares, any side, rights, en-passant file — far more men than a chess set included): the conversion never panics and never reads out of bounds; Ok(b) exactly when the gatekeeper spec holds of the assembled board; then b's placement is the builder's placement square by square, side and rights are the builder's, the en-passant square is the builder's file on the double-push rank of the side that just moved and is recorded exactly when a pawn of the side to move stands beside it, and checkers/pinned equal the from-scratch spec. Callees update_pin_info / is_sane are used through their contracts O3.1 / O5.1"
-#[kani::proof]
-#[kani::unwind(66)]
-#[kani::stub(crate::board::Board::update_pin_info, upi_spec)]
-#[kani::stub(crate::board::Board::is_sane, is_sane_spec)]
-#[kani::stub(crate::magic::get_rank, crate::vstubs::rank_cf)]
-#[kani::stub(crate::magic::get_adjacent_files, crate::vstubs::adjacent_files_cf)]
-#[kani::stub(crate::zobrist::Zobrist::piece, crate::vstubs::zobrist_probe)]
-fn c07_try_from_builder() {
-    let bb = any_builder();
+fn try_from_check(symbolic_squares: u64) {
+    let (bb, codes) = crate::board_builder::k_builder::any_builder_codes(symbolic_squares);
     let (pp, ps, pc, pk) = set_probe();
     let r = Board::try_from(&bb);
-    // assemble the expected position from the builder, square by square
+    // assemble the expected position from the builder's contents, square by square
     let mut pieces = [0u64; 6];
     let mut colors = [0u64; 2];
     let mut i = 0u8;
     while i < 64 {
-        if let Some((p, c)) = bb[Square::new(i)] {
-            pieces[p.to_index()] |= 1u64 << i;
-            colors[c.to_index()] |= 1u64 << i;
+        let c = codes[i as usize];
+        if c < 12 {
+            pieces[(c % 6) as usize] |= 1u64 << i;
+            colors[(c / 6) as usize] |= 1u64 << i;
         }
         i += 1;
     }
@@ -760,6 +753,31 @@ fn c07_try_from_builder() {
     kani::cover!(ok);
 }
 
+
+// @ob id=O7.1q props=C07 also=C06,C08 tier=quick kind=bounded weight=light bound="the 32 squares of ranks 1,2,7,8 carry any of 13 contents, ranks 3-6 are empty; side, rights, en-passant file symbolic" fn="TryFrom<&BoardBuilder> for Board,Board::set_ep,Board::add_castle_rights,BoardBuilder::get_en_passant" desc="for a FULLY symbolic builder (any of 13 contents on each of the 64 squares, any side, rights, en-passant file — far more men than a chess set included): the conversion never panics and never reads out of bounds; Ok(b) exactly when the gatekeeper spec holds of the assembled board; then b's placement is the builder's placement square by square, side and rights are the builder's, the en-passant square is the builder's file on the double-push rank of the side that just moved and is recorded exactly when a pawn of the side to move stands beside it, and checkers/pinned equal the from-scratch spec. Callees update_pin_info / is_sane are used through their contracts O3.1 / O5.1"
+#[kani::proof]
+#[kani::unwind(66)]
+#[kani::stub(crate::board::Board::update_pin_info, upi_spec)]
+#[kani::stub(crate::board::Board::is_sane, is_sane_spec)]
+#[kani::stub(crate::magic::get_rank, crate::vstubs::rank_cf)]
+#[kani::stub(crate::magic::get_adjacent_files, crate::vstubs::adjacent_files_cf)]
+#[kani::stub(crate::zobrist::Zobrist::piece, crate::vstubs::zobrist_probe)]
+fn c07_try_from_builder_outer_ranks() {
+    try_from_check(0xffff_0000_0000_ffff);
+}
+
+// @ob id=O7.1 props=C07 also=C06,C08 tier=thorough kind=proof weight=medium fn="TryFrom<&BoardBuilder> for Board,Board::set_ep,Board::add_castle_rights,BoardBuilder::get_en_passant" desc="for a FULLY symbolic builder (any of 13 contents on each of the 64 squares, any side, rights, en-passant file — far more men than a chess set included): the conversion never panics and never reads out of bounds; Ok(b) exactly when the gatekeeper spec holds of the assembled board; then b's placement is the builder's placement square by square, side and rights are the builder's, the en-passant square is the builder's file on the double-push rank of the side that just moved and is recorded exactly when a pawn of the side to move stands beside it, and checkers/pinned equal the from-scratch spec. Callees update_pin_info / is_sane are used through their contracts O3.1 / O5.1"
+#[kani::proof]
+#[kani::unwind(66)]
+#[kani::stub(crate::board::Board::update_pin_info, upi_spec)]
+#[kani::stub(crate::board::Board::is_sane, is_sane_spec)]
+#[kani::stub(crate::magic::get_rank, crate::vstubs::rank_cf)]
+#[kani::stub(crate::magic::get_adjacent_files, crate::vstubs::adjacent_files_cf)]
+#[kani::stub(crate::zobrist::Zobrist::piece, crate::vstubs::zobrist_probe)]
+fn c07_try_from_builder() {
+    try_from_check(!0u64);
+}
+
 // @ob id=O7.canary props=C07,C05 tier=quick kind=canary fn="Board::is_sane" desc="deliberately false: is_sane accepts every board with one king per side — must FAIL"
 #[kani::proof]
 #[kani::unwind(9)]
@@ -782,13 +800,13 @@ pub(crate) fn any_fresh_gen(_b: &Board) -> MoveGen {
 pub(crate) fn any_small_fresh_gen(b: &Board) -> MoveGen {
     let g = any_fresh_gen(b);
     let s = crate::movegen::k_movegen::last_gen_snapshot();
-    kani::assume(s.0[0].1.count_ones() <= 2 && s.0[1].1.count_ones() <= 1 && s.0[2].1.count_ones() <= 1);
+    kani::assume(s.0[0].1.count_ones() <= 1 && s.0[1].1.count_ones() <= 1 && s.0[2].1.count_ones() <= 1);
     g
 }
 
-// @ob id=O1.9 props=C01 tier=quick kind=bounded weight=light bound="generator with at most 3 slots of at most 2,1,1 destinations standing for the legal-move list" fn="Board::legal" desc="the single-move legality query answers true exactly for the (source, destination, promotion) triples the generator would yield — promotion slots yield exactly the four promotion pieces, other slots exactly promotion None — and false for every other of the 64x64x7 move values; new_legal used through its contract"
+// @ob id=O1.9 props=C01 tier=quick kind=bounded weight=light bound="generator with at most 3 slots of at most 1 destination each standing for the legal-move list" fn="Board::legal" desc="the single-move legality query answers true exactly for the (source, destination, promotion) triples the generator would yield — promotion slots yield exactly the four promotion pieces, other slots exactly promotion None — and false for every other of the 64x64x7 move values; new_legal used through its contract"
 #[kani::proof]
-#[kani::unwind(24)]
+#[kani::unwind(15)]
 #[kani::stub(crate::movegen::MoveGen::new_legal, any_small_fresh_gen)]
 fn c01_board_legal_is_membership() {
     let b = any_raw_board();
